@@ -28,6 +28,7 @@ theorem operands_owned (s : Stmt) (a : Act) (c : ChanId) (h : some c ∈ (operan
   cases s <;> simp [operands] at h
   case send ch src => exact List.mem_of_getElem? h.symm
   case recv dst ok ch => exact List.mem_of_getElem? h.symm
+  case range dst ch t => exact List.mem_of_getElem? h.symm
   case close ch => exact List.mem_of_getElem? h.symm
   case select cs =>
     obtain ⟨k, _, hk⟩ := h
@@ -46,6 +47,22 @@ theorem doRecv_props {h : ChanId → Chan} {a a' : Act} {id dst next : Nat} {ok 
     (he : doRecv h a id dst ok next = some (a', u)) :
     a'.chans = a.chans ∧ a'.scr = a.scr ∧ (∀ k c, u = some (k, c) → k = id) := by
   unfold doRecv at he
+  split at he
+  · simp at he
+    obtain ⟨h1, h2⟩ := he
+    subst h1; subst h2
+    simp
+  · split at he
+    · simp at he
+      obtain ⟨h1, h2⟩ := he
+      subst h1; subst h2
+      simp
+    · simp at he
+
+theorem doRange_props {h : ChanId → Chan} {a a' : Act} {id dst body exit : Nat} {u : Option (ChanId × Chan)}
+    (he : doRange h a id dst body exit = some (a', u)) :
+    a'.chans = a.chans ∧ a'.scr = a.scr ∧ (∀ k c, u = some (k, c) → k = id) := by
+  unfold doRange at he
   split at he
   · simp at he
     obtain ⟨h1, h2⟩ := he
@@ -97,6 +114,14 @@ theorem execR_props {s : Stmt} {ops : Ops} {a a' : Act} {h : ChanId → Chan} {c
     | some id =>
       simp only [hc] at he
       obtain ⟨h1, h2, h3⟩ := doRecv_props he
+      exact ⟨h1, h2, fun k c hu => by rw [h3 k c hu]; exact ch_mem hc⟩
+  case range dst ch t =>
+    simp only [execR] at he
+    cases hc : ops.ch 0 with
+    | none => simp [hc] at he
+    | some id =>
+      simp only [hc] at he
+      obtain ⟨h1, h2, h3⟩ := doRange_props he
       exact ⟨h1, h2, fun k c hu => by rw [h3 k c hu]; exact ch_mem hc⟩
   case close ch =>
     simp only [execR] at he
